@@ -127,8 +127,9 @@ func runRejectedRemoved(c *Ctx) {
 				}
 				// a condition that compares a loaded sidecar's identity fields for inequality
 				mismatch := false
-				ast.Inspect(is.Cond, func(x ast.Node) bool {
-					if be, ok := x.(*ast.BinaryExpr); ok && be.Op == token.NEQ {
+				// a predicate method of the sidecar (`!sc.describes(id, size, chunk)`) is looked into
+				ast.Inspect(ExpandPred(p, f, is.Cond, 2), func(x ast.Node) bool {
+					if be, ok := x.(*ast.BinaryExpr); ok && (be.Op == token.NEQ || be.Op == token.EQL) {
 						if sel, ok := ast.Unparen(be.X).(*ast.SelectorExpr); ok {
 							switch sel.Sel.Name {
 							case "ChunkSize", "FileSize", "FileID":
@@ -138,6 +139,33 @@ func runRejectedRemoved(c *Ctx) {
 							}
 						}
 					}
+					return true
+				})
+				// a predicate with more than one statement: a bool method of Sidecar whose body compares the identity fields
+				ast.Inspect(is.Cond, func(x ast.Node) bool {
+					call, ok := x.(*ast.CallExpr)
+					if !ok {
+						return true
+					}
+					g := p.CalleeInfo(info, call)
+					if g == nil || g.Body == nil || g.Obj == nil {
+						return true
+					}
+					sig, _ := g.Obj.Type().(*types.Signature)
+					if sig == nil || sig.Recv() == nil || !strings.HasSuffix(strings.TrimPrefix(sig.Recv().Type().String(), "*"), "transfer.Sidecar") || sig.Results().Len() != 1 || !isBool(sig.Results().At(0).Type()) {
+						return true
+					}
+					ast.Inspect(g.Body, func(y ast.Node) bool {
+						if be, ok := y.(*ast.BinaryExpr); ok && (be.Op == token.NEQ || be.Op == token.EQL) {
+							if sel, ok := ast.Unparen(be.X).(*ast.SelectorExpr); ok {
+								switch sel.Sel.Name {
+								case "ChunkSize", "FileSize", "FileID":
+									mismatch = true
+								}
+							}
+						}
+						return true
+					})
 					return true
 				})
 				if !mismatch {
